@@ -34,7 +34,7 @@ class HistSim(Sim):
     PROBES = ["root_was_root", "root_was_interior", "retained_crossed_again", "leaf_as_root", "leaf_as_root_again",
               "reuse_of_differentiated_node", "no_reset_between_calls", "reset_between_calls", "sweep_under_retain_ctx",
               "unreachable_tensor_with_grad", "fault_mid_sweep", "retry_after_fault", "rejected_backward", "repeat_same_root",
-              "zero_via_tensor", "zero_via_module", "zero_via_optimizer", "forward_fault"]
+              "zero_via_tensor", "zero_via_module", "zero_via_optimizer", "forward_fault", "no_grad_span", "nonfinite_upstream_gradient"]
     RULE = ("one run = a seeded history of build/backward/retain/reset/fault events over shared leaves; distinct = hash of the event-kind "
             "sequence with, per backward, the root's role (fresh/former root/former interior/leaf) and whether retained nodes were crossed; "
             "non-trivial = at least two accepted backward calls")
@@ -71,6 +71,7 @@ class HistSim(Sim):
         st.opt = None
         st.opt_ids = []
         st.retain_ctx = None
+        st.nograd_ctx = None
         st.pending = []
         st.setup_done = False
         st.was_root = set()
@@ -116,6 +117,9 @@ class HistSim(Sim):
                 return {"k": "retain_grad", "node": rng.choice(c)}
         if r < kn["p_reset"] + 0.09:
             return {"k": "retain_ctx", "on": st.retain_ctx is None}
+        if r < kn["p_reset"] + 0.115:
+            # a span of events inside no_grad: results built there are constants (no history), also when built from tracked tensors
+            return {"k": "nograd_ctx", "on": st.nograd_ctx is None}
         if r < kn["p_reset"] + 0.14 and st.T:
             return self._gen_bad_backward(rng, st)
         if r < kn["p_reset"] + 0.16:
@@ -183,7 +187,10 @@ class HistSim(Sim):
             # the upstream gradient usually has the root's dtype, sometimes the other floating dtype
             same = rng.random() < 0.8
             gdt = t.data.dtype.type if same else (np.float64 if t.data.dtype == np.float32 else np.float32)
-            g = enc(small_values(rng, t.data.shape, gdt, -2, 2))
+            gv = small_values(rng, t.data.shape, gdt, -2, 2)
+            g = enc(gv)
+            if rng.random() < 0.02 and gv.size:
+                g["v"][rng.randrange(gv.size)] = rng.choice([float("inf"), float("-inf")])      # a legal float: an overflowed upstream gradient
         ev = {"k": "backward", "root": root, "g": g}
         if st.knobs["faulty"] and rng.random() < 0.3:
             n = max(1, len(self._reach(st, root)))
@@ -228,7 +235,10 @@ class HistSim(Sim):
             if i in seen:
                 continue
             seen.add(i)
-            stack.extend(st.meta[i]["inputs"])
+            m = st.meta[i]
+            if m["kind"] == "node" and not m["rg"]:
+                continue          # an untracked result is a cut: what lies behind it is not part of the graph being differentiated
+            stack.extend(m["inputs"])
         return seen
 
     def _grad_bytes(self, t):
@@ -270,6 +280,9 @@ class HistSim(Sim):
                     st.fail("C04.ledger", f"{where}: .grad of leaf {i} has shape {obs.shape}, leaf has {t.data.shape}", leaf=i)
             if exp is None:
                 exp = np.zeros(t.data.shape)
+            if not np.isfinite(exp).all():
+                st.notes["nonfinite_ledger_not_compared"] += 1     # inf/nan arithmetic is not an equality: judged again after the next reset
+                continue
             # precision class of the buffer since the last reset (a root's buffer takes the dtype of the caller's g - a dtype matter,
             # C10, not decided here - so a float32 g makes the accumulation single precision until the next reset)
             if g is not None and g.data.dtype == np.float32:
@@ -308,6 +321,9 @@ class HistSim(Sim):
                 for i in reach:
                     m = st.meta[i]
                     if m["kind"] == "leaf":
+                        continue
+                    if not m["rg"]:
+                        fresh[i] = SG.Tensor(st.T[i].data.copy())      # a constant (built under no_grad or from constants)
                         continue
                     ev = m["ev"]
                     key = id(ev)
@@ -445,6 +461,16 @@ class HistSim(Sim):
     def _ev_gc(self, st, ev):
         gc.collect()
 
+    def _ev_nograd_ctx(self, st, ev):
+        if ev["on"] and st.nograd_ctx is None:
+            st.nograd_ctx = st.SG.sg.no_grad()
+            st.nograd_ctx.__enter__()
+            st.probes["no_grad_span"] += 1
+        elif not ev["on"] and st.nograd_ctx is not None:
+            st.nograd_ctx.__exit__(None, None, None)
+            st.nograd_ctx = None
+        self._check_leaves(st, "after no_grad enter/exit")
+
     def _ev_zero(self, st, ev):
         via = ev["via"]
         if via == "tensor":
@@ -533,6 +559,8 @@ class HistSim(Sim):
             st.skipped += 1
             return
         reach = self._reach(st, root)
+        if g is not None and not np.isfinite(g).all():
+            st.probes["nonfinite_upstream_gradient"] += 1
         contrib = self._isolated(st, root, g)
         others = [i for i in st.T if i not in reach]
         snap = self._snapshot(st, others)
@@ -616,6 +644,9 @@ class HistSim(Sim):
         self._check_leaves(st, f"after backward(root={root}, role={role})")
 
     def finish(self, st):
+        if st.nograd_ctx is not None:
+            st.nograd_ctx.__exit__(None, None, None)
+            st.nograd_ctx = None
         if st.retain_ctx is not None:
             st.retain_ctx.__exit__(None, None, None)
             st.retain_ctx = None
